@@ -201,6 +201,9 @@ def run(ctx):
     _ctxfam.run(ctx, 'C01', ctx.rng, ctx.n(60, 800), impl, ['ber', 'der', 'per', 'uper', 'oer'])
     from .. import twomark as _twomark
     _twomark.run(ctx, 'C01', ctx.rng, ctx.n(40, 500), ['ber', 'der', 'per', 'uper', 'oer'])
+    # same-named types / values in different modules (an Item that is a CHOICE in one module and not in the other): as written in place
+    from .. import samename as _samename
+    _samename.run(ctx, 'C01', ctx.rng, ctx.n(6, 60), codecs=['ber', 'der', 'per', 'uper', 'oer'])
 
 
 WITNESSES = [
